@@ -73,6 +73,21 @@ fn do_fuzzcase<P: Property>(p: &P, file: &str) -> i32 {
     }
 }
 
+/// `vcheck fuzzshrink <ID> <fuzz cfg json> <bytes file> <signature> <out json>`: shrink a case the
+/// coverage-guided phase found (separate process: a shrink step may crash).
+fn do_fuzzshrink<P: Property>(p: &P, cfg: &str, file: &str, sig: &str, out: &str) -> i32 {
+    let cfg: vcheck::fuzzing::FuzzCfg = serde_json::from_slice(&std::fs::read(cfg).expect("cfg")).expect("cfg json");
+    let data = std::fs::read(file).expect("input file");
+    match vcheck::fuzzing::shrink(p, &cfg.features, cfg.tier, &data, sig, p.max_shrink_iters()) {
+        Some((case, detail)) => {
+            let body = serde_json::json!({"property": p.id(), "signature": sig, "detail": detail, "case": case});
+            std::fs::write(out, serde_json::to_vec_pretty(&body).unwrap()).expect("write shrunk case");
+            0
+        }
+        None => 2,
+    }
+}
+
 fn do_replay<P: Property>(p: &P, file: &str) -> i32 {
     replay(p, &PathBuf::from(file))
 }
@@ -106,6 +121,7 @@ fn main() {
         "worker" => dispatch!(id, do_worker, &args[3]),
         "one" => dispatch!(id, do_one, &args[3]),
         "replay" => dispatch!(id, do_replay, &args[3]),
+        "fuzzshrink" if args.len() >= 7 => dispatch!(id, do_fuzzshrink, &args[3], &args[4], &args[5], &args[6]),
         "fuzzcase" => dispatch!(id, do_fuzzcase, &args[3]),
         "dump16" => props::c16::child_main(&args[3]),
         _ => 2,
